@@ -127,3 +127,24 @@ Lemma pin_diag_literals :
   diag_literals = [s_update_available ++ [123;125] ++ s_arrow ++ [123;125]; s_unknown;
                    s_version_ ++ [123;125] ++ s_not_found; s_invalid ++ [123;125]].
 Proof. reflexivity. Qed.
+
+(* ---------- C18: a diagnostic is always backed by reads that all succeeded ---------- *)
+Theorem diagnostic_backed_by_reads st m cur d :
+  diagnostic st m cur = Some d ->
+  exists l res all,
+    s_latest st = Some (Some l) /\ s_tag st cur = Some res /\ s_versions st = Some all /\
+    diagnostic (mkStorer (Some (Some l)) (fun _ => Some res) (Some all)) m cur = Some d.
+Proof.
+  unfold diagnostic, compare_version. cbn [s_latest s_tag s_versions].
+  destruct (s_latest st) as [[l|]|]; try discriminate.
+  destruct (s_tag st cur) as [res|]; try discriminate.
+  destruct (match res with Some v => Some v | None => if is_potential_dist_tag cur then None else Some cur end) as [rv|] eqn:Er; [|discriminate].
+  destruct (s_versions st) as [all|]; [|discriminate].
+  intro H. exists l, res, all. rewrite Er. auto.
+Qed.
+
+(* a failed read of one dependency never affects another dependency: each is computed separately *)
+Theorem diagnostics_independent st1 st2 m cur :
+  s_latest st1 = s_latest st2 -> s_tag st1 cur = s_tag st2 cur -> s_versions st1 = s_versions st2 ->
+  diagnostic st1 m cur = diagnostic st2 m cur.
+Proof. intros H1 H2 H3. unfold diagnostic, compare_version. rewrite H1, H2, H3. reflexivity. Qed.
